@@ -127,6 +127,89 @@ type analyser struct {
 	resizes  [][2]string // (field, length expression): if cap(x.f) >= n { x.f = x.f[:n] … } else { x.f = make(T, n) }
 	reslices []string // fields bound to a local by v := obj.f[:hi] (length re-established from this call's dimensions)
 	hitBody bool // treat `if cond-on-obj { …; return }` as the reuse gate
+	pkg     *pkgInfo        // package of the analysed function (to follow callees)
+	active  map[string]bool // functions being inlined (recursion guard)
+	depth   int
+}
+
+// calleeDecl resolves a call to a module function with a body; it returns the
+// declaration, its package and its unique name.
+func (a *analyser) calleeDecl(c *ast.CallExpr) (*ast.FuncDecl, *pkgInfo, string) {
+	if a.pkg == nil {
+		return nil, nil, ""
+	}
+	var id *ast.Ident
+	switch f := c.Fun.(type) {
+	case *ast.Ident:
+		id = f
+	case *ast.SelectorExpr:
+		id = f.Sel
+	}
+	if id == nil {
+		return nil, nil, ""
+	}
+	fo, ok := a.pkg.info.Uses[id].(*types.Func)
+	if !ok || fo.Pkg() == nil {
+		return nil, nil, ""
+	}
+	for _, p := range loaded {
+		if p.pkg != fo.Pkg() {
+			continue
+		}
+		for _, f := range p.files {
+			for _, d := range f.Decls {
+				if fd, ok := d.(*ast.FuncDecl); ok && fd.Body != nil && p.info.Defs[fd.Name] == types.Object(fo) {
+					return fd, p, p.alias + "." + funcUniqueName(fd)
+				}
+			}
+		}
+	}
+	return nil, nil, ""
+}
+
+// inlineCallee merges into w what a module callee writes to the object when the
+// object is its receiver (obj.m(…)) or one of its arguments (f(obj, …)): a reset
+// function may be split into helpers without changing what the acquire path resets.
+func (a *analyser) inlineCallee(c *ast.CallExpr, w *wset) {
+	if a.depth >= 6 {
+		return
+	}
+	fd, p, name := a.calleeDecl(c)
+	if fd == nil || a.active[name] {
+		return
+	}
+	var objNames []string
+	if sel, ok := c.Fun.(*ast.SelectorExpr); ok {
+		if id, ok := sel.X.(*ast.Ident); ok && id.Name == a.obj && fd.Recv != nil && len(fd.Recv.List) == 1 && len(fd.Recv.List[0].Names) == 1 {
+			objNames = append(objNames, fd.Recv.List[0].Names[0].Name)
+		}
+	}
+	k := 0
+	if fd.Type.Params != nil {
+		for _, fl := range fd.Type.Params.List {
+			n := len(fl.Names)
+			if n == 0 {
+				n = 1
+			}
+			for j := 0; j < n; j++ {
+				if k < len(c.Args) && j < len(fl.Names) {
+					if id, ok := c.Args[k].(*ast.Ident); ok && id.Name == a.obj {
+						objNames = append(objNames, fl.Names[j].Name)
+					}
+				}
+				k++
+			}
+		}
+	}
+	for _, on := range objNames {
+		if on == "_" {
+			continue
+		}
+		sub := &analyser{obj: on, aliases: map[string]string{}, pkg: p, active: a.active, depth: a.depth + 1}
+		a.active[name] = true
+		w.merge(sub.seq(fd.Body.List, "", ""))
+		delete(a.active, name)
+	}
 }
 
 // rootField returns (field, depth) for an expression rooted at obj: depth 1 = obj.f,
@@ -238,6 +321,7 @@ func (a *analyser) callExpr(c *ast.CallExpr, w *wset) {
 			return
 		}
 	}
+	a.inlineCallee(c, w)
 	// method call on the object or on one of its fields
 	if sel, ok := c.Fun.(*ast.SelectorExpr); ok {
 		if id, ok := sel.X.(*ast.Ident); ok && id.Name == a.obj {
@@ -1081,7 +1165,7 @@ func genFields() (string, string) {
 				refuse("fields: function %s.%s not found (pooled type %s)", fs.alias, label, ts.typ)
 				continue
 			}
-			a := &analyser{aliases: map[string]string{}}
+			a := &analyser{aliases: map[string]string{}, pkg: q, active: map[string]bool{}}
 			if fs.touches {
 				a.touches = map[string]bool{}
 			}
